@@ -72,7 +72,7 @@ pub fn run(cfg: &Cfg, log: &mut Log) {
             log.sample(J::obj(vec![("type", J::s(rc.name)), ("value", J::s(show_val(&v))), ("fault_positions", J::u(l as u64))]));
         }
         // large values: single requests beyond 2^16 bytes, fragmented at sizes below, around and above that
-        for v in if cfg!(miri) { vec![] } else { big_values(&rc) } {
+        for v in big_values(&rc) {
             log.begin(rc.name);
             let Ok(bytes) = ser_plain(&rc, &v) else {
                 log.violation("C14", "C14/serialize", rc.name, Some(&v), "serialize failed".into(), vec![]);
